@@ -69,6 +69,11 @@ def run(ctx, replay=None):
     alphabet = [("train", m, ph) for m in models for ph in ("beta",)] + [("train", "drivingForce", "gamma")] + \
                [("query", q, ph) for q in queries for ph in ("beta", "gamma")] + [("reload",)]
     hist = [list(h) for h in itertools.product(alphabet, repeat=2) if any(o[0] == "query" for o in h)]
+    trains = [o for o in alphabet if o[0] == "train"]
+    qs = [o for o in alphabet if o[0] == "query"]
+    for tr in trains:                                   # train one model, rebuild from the saved file, then query everything
+        for q in qs:
+            hist.append([tr, ("reload",), q])
     for _ in range(40 if ctx.tier == "quick" else 400):
         hist.append([ctx.rng.choice(alphabet) for _ in range(ctx.rng.randint(3, 6))])
     straces = []
